@@ -100,6 +100,14 @@ def render(recipe):
                 rec(emit(fidx, '%s%s = V[%d]' % (pad, stmt[1], stmt[2])))
             elif kind == 'call':
                 txt = call_text(stmt[2], stmt[3])
+                if len(stmt) > 4 and stmt[4] == 2:
+                    # the call is made from a closure: between caller and callee sits a '<lambda>' frame whose `self`
+                    # (or `n`) is a free variable taken from the enclosing function
+                    txt = '(lambda: [%s, %s][1])()' % ('self' if funcs[self_fi]['kind'] == 'method' else 'n', txt)
+                elif len(stmt) > 4 and stmt[4]:
+                    # the call is made from code run through eval() without namespaces of its own: between caller and
+                    # callee sits a '<string>' frame that shares the caller's globals and locals
+                    txt = 'eval(%r)' % txt
                 rec(emit(fidx, '%s%s%s' % (pad, (stmt[1] + ' = ') if stmt[1] else '', txt)))
             elif kind == 'rec':
                 rec(emit(fidx, '%sif n > 0:' % pad))
@@ -147,6 +155,13 @@ def render(recipe):
                 # start + join happen inside the harness helper with the parent's tracing suspended: while the child runs
                 # the parent delivers no trace events, so at most one program thread produces events at any time
                 rec(emit(fidx, '%s_t = SPAWN(lambda: %s, "T%d_%%d" %% NEXT())' % (pad, call_text(fi, args), sid)))
+            elif kind == 'dyn':
+                # code run through exec / eval: frames of a '<string>' file whose globals are a bare dict (no __name__,
+                # no __file__) or the module's own
+                txt = ['exec("q0 = 1\\nq0 = q0 + n", {"n": n})', '_ev = eval("n * 2 + 1", {"n": n})',
+                       'exec("q1 = n", globals(), {"n": n})', '_ev = eval("[k for k in range(n)]", {"n": n, "range": range})'
+                       ][stmt[1] % 4]
+                rec(emit(fidx, '%s%s' % (pad, txt)))
             elif kind == 'fin':
                 # a local holding an object with a finaliser: it is finalised when the last reference goes away
                 rec(emit(fidx, '%s%s = FIN(%d)' % (pad, stmt[1], stmt[2])))
@@ -556,7 +571,7 @@ def program_recipes(draw, max_funcs=4, max_stmts=6, allow_threads=True, allow_ge
                 opts += ['hold'] * hold_bias
             if allow_threads and callees and depth == 0 and fi == 0:
                 opts += ['spawn']
-            opts += ['tick']
+            opts += ['tick', 'dyn']
             # a finalisable local is bound once per invocation and never rebound: CPython keeps the f_locals snapshot
             # of a frame whose locals were read (by any trace function) until the frame exits, so *when* a rebound
             # value dies inside the invocation is not something an agent built on sys.settrace can preserve
@@ -581,6 +596,8 @@ def program_recipes(draw, max_funcs=4, max_stmts=6, allow_threads=True, allow_ge
                 body.append(['hold', name, draw(st.integers(0, n_values - 1))])
                 if name not in scope_all:
                     scope_all = scope_all + [name]
+            elif kind == 'dyn':
+                body.append(['dyn', draw(st.integers(0, 3))])
             elif kind == 'fin':
                 name = 'z1'
                 body.append(['fin', name, draw(st.integers(0, 9))])
@@ -601,7 +618,7 @@ def program_recipes(draw, max_funcs=4, max_stmts=6, allow_threads=True, allow_ge
                         scope_all = scope_all + [name]
                 else:
                     name = draw(st.sampled_from(['r1', 'r2', None]))
-                    body.append(['call', name, j, args])
+                    body.append(['call', name, j, args, draw(st.sampled_from([False, False, True, 2]))])
                     if name and name not in scope_all:
                         scope_all = scope_all + [name]
                     if name and name in scope_int:
@@ -744,7 +761,7 @@ def chain_programs(draw, n_values=6, max_depth=5):
                     body.append(['spawn', i + 1, ['1']])
                 body.append(['ret', 'n'])
             else:
-                body.append(['call', 'r1', i + 1, ['1']])
+                body.append(['call', 'r1', i + 1, ['1'], draw(st.sampled_from([False, False, True, 2, 2]))])
                 body.append(['ret', 'r1'])
         else:
             body.append(['mark', 'n'])
